@@ -61,6 +61,25 @@ type env struct {
 	obs     []obs
 	ranMu   sync.Mutex
 	ranVal  map[int][]int64 // values computed by each Execute that completed, per key
+
+	// gate: during an "evrun" operation the first Execute of gateKey parks before its Resolve call number gateGroup
+	gateArmed atomic.Bool
+	gateKey   int
+	gateGroup int
+	parked    chan struct{}
+	release   chan struct{}
+}
+
+// gate parks the calling query until the harness has issued the concurrent Evict (at most once per operation)
+func (e *env) gate(id, g int) {
+	if id != e.gateKey || g != e.gateGroup || !e.gateArmed.CompareAndSwap(true, false) {
+		return
+	}
+	close(e.parked)
+	select {
+	case <-e.release:
+	case <-time.After(3 * time.Second):
+	}
 }
 
 func (e *env) jitter() {
@@ -128,6 +147,7 @@ func (q *Q) Execute(t *incremental.Task) (int64, error) {
 	var fatal error
 	j := int64(0)
 	for g, grp := range groups {
+		e.gate(q.ID, g)
 		if hasPanic && pa == g {
 			panic(fmt.Sprintf("boom %d", q.ID))
 		}
@@ -158,6 +178,7 @@ func (q *Q) Execute(t *incremental.Task) (int64, error) {
 			j++
 		}
 	}
+	e.gate(q.ID, len(groups))
 	if hasPanic && pa >= len(groups) {
 		panic(fmt.Sprintf("boom %d", q.ID))
 	}
@@ -315,10 +336,10 @@ func incCase(in map[string]any) map[string]any {
 			o["before"] = before
 			o["keys"] = keysOf(ex.Keys())
 			o["tasks"] = snapshot(ex)
-		case "run", "par":
+		case "run", "par", "evrun":
 			var sets [][]int
 			var delays []int64
-			if kind == "run" {
+			if kind == "run" || kind == "evrun" {
 				sets = [][]int{intsAny(op["keys"])}
 			} else {
 				for _, s := range vhlib.List(op, "runs") {
@@ -336,6 +357,15 @@ func incCase(in map[string]any) map[string]any {
 			e.ranVal = map[int][]int64{}
 			e.ranMu.Unlock()
 			ctx, cancel := context.WithCancel(context.Background())
+			runDone := make(chan struct{})
+			evDone := make(chan struct{})
+			if kind == "evrun" {
+				e.gateKey = int(vhlib.Num(op, "gate"))
+				e.gateGroup = int(vhlib.Num(op, "gate_group"))
+				e.parked = make(chan struct{})
+				e.release = make(chan struct{})
+				e.gateArmed.Store(true)
+			}
 			chans := make([]chan map[string]any, len(sets))
 			for i, set := range sets {
 				ch := make(chan map[string]any, 1)
@@ -348,8 +378,46 @@ func incCase(in map[string]any) map[string]any {
 					if d > 0 {
 						time.Sleep(time.Duration(d) * time.Microsecond)
 					}
-					ch <- doRun(ctx, ex, e, set)
+					r := doRun(ctx, ex, e, set)
+					if kind == "evrun" {
+						close(runDone)
+					}
+					ch <- r
 				}(set, d)
+			}
+			if kind == "evrun" {
+				// Evict (with the input change as its cleanup, as EvictWithCleanup prescribes) is issued while the Run is
+				// in flight: the gated query is parked inside Execute; Evict blocks on the dirty lock until the Run is over
+				select {
+				case <-e.parked:
+					o["parked"] = true
+				case <-runDone:
+					o["parked"] = false
+				case <-time.After(3 * time.Second):
+					o["parked"] = false
+				}
+				evKeys := intsAny(op["evict"])
+				evVals := intsAny(op["vals"])
+				ks := make([]any, len(evKeys))
+				for i, k := range evKeys {
+					ks[i] = K(k)
+				}
+				evStarted := make(chan struct{})
+				go func() {
+					close(evStarted)
+					ex.EvictWithCleanup(ks, func() {
+						for i, k := range evKeys {
+							if i < len(evVals) {
+								e.inputs[k].Store(int64(evVals[i]))
+							}
+						}
+					})
+					close(evDone)
+				}()
+				<-evStarted
+				time.Sleep(time.Duration(2+vhlib.Num(op, "hold_ms")) * time.Millisecond)
+				e.gateArmed.Store(false)
+				close(e.release)
 			}
 			// two-phase watchdog: after timeout_ms a Run counts as slow, after 5 x timeout_ms (at least 6 s more) as hung;
 			// the long second phase keeps a loaded machine from being mistaken for a deadlock
@@ -451,6 +519,18 @@ func incCase(in map[string]any) map[string]any {
 			e.ranMu.Unlock()
 			o["computed"] = rv
 			o["tasks"] = snapshot(ex)
+			if kind == "evrun" {
+				select {
+				case <-evDone:
+					o["ev_hang"] = false
+				case <-time.After(time.Duration(to)*time.Millisecond + 6*time.Second):
+					o["ev_hang"] = true
+					dead = true
+				}
+				o["no_after"] = true // Keys() / tasks between the Run and the concurrent Evict cannot be observed
+				o["ev_keys"] = keysOf(ex.Keys())
+				o["ev_tasks"] = snapshot(ex)
+			}
 		default:
 			o["bad_op"] = true
 		}
